@@ -5,6 +5,7 @@ package main
 
 import (
 	"fmt"
+	"os"
 	"sort"
 	"strings"
 	"time"
@@ -105,6 +106,8 @@ type Exec struct {
 	localSat    int
 	localUnsat  int
 	solGen      int
+	cur         *frame
+	lastPanicWhere string
 	snaps       map[*ssa.Package]*pkgSnapshot
 	pathCount   int
 	funcs       map[string]int
@@ -561,6 +564,9 @@ func (ex *Exec) RunPath(entry *ssa.Function, item WorkItem) (res PathResult) {
 		case targetPanic:
 			res.Outcome = "panic"
 			res.Detail = ex.panicString(r.v)
+			if os.Getenv("SYMX_PANIC_WHERE") != "" {
+				res.Detail += "\n" + ex.lastPanicWhere
+			}
 			if !ex.expectPanic {
 				if m := ex.finalModel(); m != nil {
 					ex.recordViolation("no-panic", "panic", res.Detail, m)
